@@ -340,6 +340,15 @@ func (s *sampleCase) nals() [][]byte {
 	return out
 }
 
+// sampleKey: a NAL unit read wrongly is a NAL codec matter (no length size in the key); a wrong count is a framing matter.
+func sampleKey(clause, d string, ls int) string {
+	if f := fieldOf(d); f == "nal" {
+		return "sample/" + clause + "/nal"
+	} else {
+		return fmt.Sprintf("sample/%s/%s/ls=%d", clause, f, ls)
+	}
+}
+
 func checkSample(c *hl.Ctx, sc *sampleCase) {
 	c.Eval()
 	sc.Part = "sample"
@@ -371,7 +380,7 @@ func checkSample(c *hl.Ctx, sc *sampleCase) {
 		c.Violation(fmt.Sprintf("sample/ref-to-lib/error/ls=%d", sc.LengthSize), fmt.Sprintf("%s written by the ISO writer as %s is rejected: %v", desc, hl.Hex(wb), err), sc)
 		ok = false
 	} else if d := same(s); d != "" {
-		c.Violation(fmt.Sprintf("sample/ref-to-lib/%s/ls=%d", fieldOf(d), sc.LengthSize), fmt.Sprintf("%s written by the ISO writer as %s reads back differently: %s", desc, hl.Hex(wb), d), sc)
+		c.Violation(sampleKey("ref-to-lib", d, sc.LengthSize), fmt.Sprintf("%s written by the ISO writer as %s reads back differently: %s", desc, hl.Hex(wb), d), sc)
 		ok = false
 	} else if canon {
 		mb, merr := s.MarshalBinary()
@@ -399,7 +408,7 @@ func checkSample(c *hl.Ctx, sc *sampleCase) {
 				c.Violation(fmt.Sprintf("sample/roundtrip/error/ls=%d", sc.LengthSize), fmt.Sprintf("%s: unmarshal(marshal) failed: %v", desc, uerr), sc)
 				ok = false
 			} else if d := same(s2); d != "" {
-				c.Violation(fmt.Sprintf("sample/roundtrip/%s/ls=%d", fieldOf(d), sc.LengthSize), fmt.Sprintf("%s: unmarshal(marshal) differs: %s", desc, d), sc)
+				c.Violation(sampleKey("roundtrip", d, sc.LengthSize), fmt.Sprintf("%s: unmarshal(marshal) differs: %s", desc, d), sc)
 				ok = false
 			}
 		}
